@@ -30,7 +30,8 @@ func init() {
 	})
 }
 
-const prelude = `fail := {|| raise ValueErr.new("nested")}
+const prelude = `hh := {np: m{nil.zz_nope}}
+fail := {|| raise ValueErr.new("nested")}
 inner := {|| defer "id".p; "ip".p; 5}
 `
 
@@ -70,6 +71,12 @@ func stmtSrc(kind string, k int) string {
 		return fmt.Sprintf("return %d if nil", 70+k)
 	case "X":
 		return fmt.Sprintf(`raise Err.new("x%d")`, k)
+	case "LN": // a nested failure of kind NoPropErr inside a method reached through the lonely chain
+		return "hh&.np"
+	case "DJ": // guards that are true without being the cached true object (decoded from JSON)
+		return fmt.Sprintf("defer \"d%d\".p if JSON.dec(`true`)", k)
+	case "RJ":
+		return fmt.Sprintf("return %d if JSON.dec(`[true]`)[0]", 70+k)
 	case "KW": // names that merely begin with a reserved word are variables, not jump statements
 		return "defer_total := 5\n  return_early := 6\n  raise_on_fail := 7"
 	case "DZ2": // a falsy guard made of a zero that is not the cached 0 and an operator that short-cuts
@@ -141,6 +148,15 @@ func model(stmts []string) outcome {
 			stopped = true
 		case "RF", "RZ2":
 			val = "nil"
+		case "LN":
+			errK, errM = "NoPropErr", "property `zz_nope` is not defined."
+			stopped = true
+		case "DJ":
+			defers = append(defers, fmt.Sprintf("d%d", k))
+			valDC = true
+		case "RJ":
+			val = fmt.Sprint(70 + k)
+			stopped = true
 		case "KW":
 			val = "7"
 		case "DZ2":
@@ -374,7 +390,7 @@ func gen(c *core.Ctx, emit func(tcase)) {
 	}
 	fn := []string{"call", "nested", "try", "nested3", "method", "chain-elem"}
 	// a second, small alphabet: keyword-prefixed variable names and guards whose truth needs the full rule
-	rec([]string{"P", "D", "R", "X", "KW", "DZ2", "DO2", "RZ2"}, c.Pick(3, 4), nil, fn)
+	rec([]string{"P", "D", "R", "X", "KW", "DZ2", "DO2", "RZ2", "LN", "DJ", "RJ"}, c.Pick(3, 4), nil, fn)
 	if c.Thorough() {
 		rec(alphabet, 5, nil, fn)
 		rec(iterAlphabet, 5, nil, []string{"iter"})
